@@ -312,8 +312,8 @@ func ruleArith(c *Ctx, prefix string) {
 			}
 		}
 		n := 0
-		for _, b := range fn.Blocks {
-			for _, in := range b.Instrs {
+		for _, in := range viewInstrs(fn) {
+			{
 				r, ok := sites[in]
 				if !ok {
 					continue
